@@ -621,6 +621,8 @@ pub fn c09(tier: Tier) -> ! {
         vec!["--replications", "12", "--steps", "60", "--inner-steps", "20", "p2", "polygon", "--sides", "4"],
         vec!["--replications", "10", "--steps", "40", "--inner-steps", "10", "--potential", "LJ", "p2mg", "trimer"],
         vec!["--replications", "7", "--steps", "40", "--inner-steps", "10", "--potential", "LJ", "p1", "trimer"],
+        // many replicas per worker thread and a hot main stage
+        vec!["--replications", "32", "--kt-start", "0.5", "--steps", "400", "p2", "circle"],
         // long enough for a tiling shape to come within a thousandth of a perfect packing
         vec!["--replications", "3", "--steps", "10000", "--max-step-size", "0.05", "p2", "polygon", "--sides", "4"],
     ]
@@ -681,6 +683,35 @@ pub fn c09(tier: Tier) -> ! {
             if j(&r1) != j(&r2) {
                 run.fail(None, &format!("{} (optimised with seed {}): optimising a copy of the state gives another result than optimising the state (same settings and seed)", label, seed), json!({"engine": "clone", "state": st.to_json()}));
                 break 'outer;
+            }
+        }
+    }
+    // (and a copy of the very object an optimisation handed back - not of a re-read document -
+    // optimises like that object)
+    {
+        fn chain<S: State>(s: &S, seed: u64) -> (String, String) {
+            let mut b1 = BuildOptimiser::default();
+            b1.steps(150).inner_steps(50).kt_start(0.).kt_ratio(Some(0.)).max_step_size(0.05).seed(seed);
+            let mut b2 = BuildOptimiser::default();
+            b2.steps(60).inner_steps(20).kt_start(0.).kt_ratio(Some(0.)).max_step_size(0.02).seed(seed + 7);
+            let a = b1.build().optimise_state(s.clone());
+            let c = a.clone();
+            let ra = serde_json::to_string(&b2.build().optimise_state(a)).unwrap_or_default();
+            let rc = serde_json::to_string(&b2.build().optimise_state(c)).unwrap_or_default();
+            (ra, rc)
+        }
+        for (label, init) in clone_pool.iter() {
+            for seed in 0..tier.pick(6u64, 20u64) {
+                clones += 1;
+                let (ra, rc) = match init {
+                    AnyState::Poly(x) => chain(x, seed),
+                    AnyState::Mol(x) => chain(x, seed),
+                    AnyState::Lj(x) => chain(x, seed),
+                };
+                if ra != rc {
+                    run.fail(None, &format!("{} (seed {}): a copy of an optimised state optimises to another result than the optimised state itself (same settings and seed)", label, seed), json!({"engine": "clone", "what": label, "seed": seed}));
+                    break;
+                }
             }
         }
     }
